@@ -98,7 +98,7 @@ CHECKS = {
         technique=TECH + "; bounded native check for the parts outside reach"),
     "C04": dict(
         category="exploration",
-        text="assign_colors is PROVED on the real source for symbol lists of every length (two loop invariants of 10 + 9 clauses, ghost owner lists and slot fields, symbolic-length lists; overlapping lifetimes get different colours, every symbol is coloured) and, as an independent second encoding, executed symbolically for every list of n <= 5 (thorough: 7) symbols; the body of assign_registers' symbol loop is proved (colour c is the c-th register not blocked by a caller, within r0-r15, otherwise the out-of-registers error). That line-interval lifetimes cover real liveness, and the call-graph blocking around the loop, are validated per compilation: an interprocedural liveness analysis over the virtual register names observed around the real assign_registers reports every definition that overwrites another live value's register (complete per program, independent of run-time values), next to the simulation check (a clobbered live value shows up as a wrong effect); both are bounded over generated programs, hence level 'exploration'.",
+        text="assign_colors is PROVED on the real source for symbol lists of every length (two loop invariants of 10 + 9 clauses, ghost owner lists and slot fields, symbolic-length lists; overlapping lifetimes get different colours, every symbol is coloured) and, as an independent second encoding, executed symbolically for every list of n <= 5 (thorough: 7) symbols; the body of assign_registers' symbol loop is proved (colour c is the c-th register not blocked by a caller, within r0-r15, otherwise the out-of-registers error); get_loop_ancestor (an enclosing loop of the function is returned when there is one) and the lifetime of temporaries (the line range of the enclosing statement) are proved over ghost ancestor chains of any length. That line-interval lifetimes cover real liveness, and the call-graph blocking around the loop, are validated per compilation: an interprocedural liveness analysis over the virtual register names observed around the real assign_registers reports every definition that overwrites another live value's register (complete per program, independent of run-time values), next to the simulation check (a clobbered live value shows up as a wrong effect); both are bounded over generated programs, hence level 'exploration'.",
         design_ref="6.C04, 12.8, appendix A", note="sorted() is an assumed contract (ordering fact for the key the code passes); known findings (alias, nested-loop lifetime, transitive blocking, inlined return register) replayed every run.",
         technique=TECH + " (unbounded loop-invariant proof + K-bounded second encoding); bounded native contract check of compile_code as stand-in"),
     "C09": dict(
